@@ -1626,32 +1626,58 @@ func recordCrashHistory(scratch string, h CrashHistory) (*crashfs.Log, error) {
 	})
 }
 
-// prefixDigest pins the part of a log a descriptor depends on (see c26): paths, offsets and payload bytes of every
-// event up to the cut. The WAL segment payload is snappy-compressed points and the tsi1 log carries series ids, all
-// deterministic for a history.
-func prefixDigest(l *crashfs.Log, d crashfs.Descriptor) string {
-	n := d.Cut
-	if d.TornLen >= 0 && d.TornEvent >= n {
-		n = d.TornEvent + 1
-	}
-	if n > len(l.Events) {
-		return "log-too-short"
-	}
-	h := sha256.New()
-	for i := 0; i < n; i++ {
-		e := &l.Events[i]
-		fmt.Fprintf(h, "%s|%s|%s|%d|%d|%d|%x|", e.Op, normPath(e.Path), normPath(e.Path2), e.Ino, e.Off, e.Size, sha256.Sum256(e.Data))
-		if e.Marker != nil {
-			fmt.Fprintf(h, "%s|%d|%s|", e.Marker.Kind, e.Marker.K, e.Marker.Payload)
-		}
-	}
-	return hex.EncodeToString(h.Sum(nil)[:8])
-}
-
 var manifestTmpRe = regexp.MustCompile(`MANIFEST[0-9]+`)
 
 // normPath removes the random suffix of the tsi1 manifest's temporary file name.
 func normPath(p string) string { return manifestTmpRe.ReplaceAllString(p, "MANIFEST.tmp") }
+
+// contentKey identifies the directory content of an image independently of the tsi1 manifest's temporary file name.
+func contentKey(im *crashfs.Image) string {
+	h := sha256.New()
+	first := map[int]int{}
+	for i, f := range im.Files {
+		fmt.Fprintf(h, "%s|%v|", normPath(f.Path), f.Dir)
+		if f.Dir {
+			continue
+		}
+		if j, ok := first[f.Ino]; ok {
+			fmt.Fprintf(h, "link%d|", j)
+			continue
+		}
+		first[f.Ino] = i
+		d := f.Data
+		if int64(len(d)) > f.Size {
+			d = d[:f.Size]
+		}
+		for len(d) > 0 && d[len(d)-1] == 0 {
+			d = d[:len(d)-1]
+		}
+		fmt.Fprintf(h, "%d|%d|", f.Size, len(d))
+		h.Write(d)
+	}
+	return hex.EncodeToString(h.Sum(nil)[:12])
+}
+
+func ctxKey(cx crashCtx) string { return fmt.Sprintf("%d/%s/%d", cx.NAcked, cx.Infl, cx.InflI) }
+
+// findImage locates the image of a recorded case in a (possibly different) recording of the same history: by its
+// descriptor if that still names the same content and context, else by searching all images of the log.
+func findImage(l *crashfs.Log, cs *CrashCase) (*crashfs.Image, crashCtx, bool) {
+	if im, err := l.Build(cs.Desc, crashImgOpts); err == nil {
+		if cx, err := contextOf(cs.History, im); err == nil && contentKey(im) == cs.Content && ctxKey(cx) == cs.Ctx {
+			return im, cx, true
+		}
+	}
+	for im := range l.Images(crashImgOpts, nil) {
+		if contentKey(im) != cs.Content {
+			continue
+		}
+		if cx, err := contextOf(cs.History, im); err == nil && ctxKey(cx) == cs.Ctx {
+			return im, cx, true
+		}
+	}
+	return nil, crashCtx{}, false
+}
 
 var (
 	crashLogMu    sync.Mutex
@@ -1660,26 +1686,30 @@ var (
 
 func crashHistoryKey(h CrashHistory) string { return strings.Join(h.Ops, " ") }
 
-func findCrashLog(scratch string, h CrashHistory, d crashfs.Descriptor, digest string) (*crashfs.Log, string) {
+// findCrashImage returns the image of the case from a cached or fresh recording of its history.
+func findCrashImage(scratch string, cs *CrashCase) (*crashfs.Image, crashCtx, string) {
+	h := cs.History
 	crashLogMu.Lock()
 	l := crashLogCache[crashHistoryKey(h)]
 	crashLogMu.Unlock()
-	if l != nil && (digest == "" || prefixDigest(l, d) == digest) {
-		return l, ""
+	if l != nil {
+		if im, cx, ok := findImage(l, cs); ok {
+			return im, cx, ""
+		}
 	}
-	for try := 0; try < 4; try++ {
+	for try := 0; try < 6; try++ {
 		l, err := recordCrashHistory(scratch, h)
 		if err != nil {
-			return nil, "recording failed: " + err.Error()
+			return nil, crashCtx{}, "recording failed: " + err.Error()
 		}
-		crashLogMu.Lock()
-		crashLogCache[crashHistoryKey(h)] = l
-		crashLogMu.Unlock()
-		if digest == "" || prefixDigest(l, d) == digest {
-			return l, ""
+		if im, cx, ok := findImage(l, cs); ok {
+			crashLogMu.Lock()
+			crashLogCache[crashHistoryKey(h)] = l
+			crashLogMu.Unlock()
+			return im, cx, ""
 		}
 	}
-	return nil, "could not re-record a log with the same event prefix (the history is not deterministic enough for this descriptor)"
+	return nil, crashCtx{}, "could not re-record a log that contains the image of this case (the history is not deterministic enough)"
 }
 
 const isolatedTimeout = 90 * time.Second
@@ -1818,7 +1848,8 @@ type CrashCase struct {
 	Part    string             `json:"part"` // "crash"
 	History CrashHistory       `json:"history"`
 	Desc    crashfs.Descriptor `json:"image"`
-	Digest  string             `json:"log_prefix_digest"`
+	Content string             `json:"image_content"` // contentKey of the image: a re-recording is searched for it
+	Ctx     string             `json:"ack_context"`   // acknowledged ops / op in flight at the cut
 	Cut     string             `json:"cut_description"`
 }
 
@@ -1862,8 +1893,13 @@ func cutClass(im *crashfs.Image) string {
 	return strings.TrimSuffix(im.NextOp+":"+fileClass(im.NextPath), ":")
 }
 
+// crashSig: clause, stage of the recovery checker, what the op in flight does to the schema, kind of file the cut lies in.
 func crashSig(clause, stage string, im *crashfs.Image, h CrashHistory, cx crashCtx) string {
-	return vlib.JoinSig("crash", clause, stage, "cut="+im.Desc.Kind, "inflight="+inflClass(h.Ops, cx), "at="+cutClass(im))
+	at := fileClass(im.NextPath)
+	if at == "" {
+		at = "between-ops"
+	}
+	return vlib.JoinSig("crash", clause, stage, "inflight="+inflClass(h.Ops, cx), "at="+at)
 }
 
 func crashHistoryRun(c *vlib.Ctx, scratch string, h CrashHistory) (stop bool) {
@@ -1958,7 +1994,7 @@ func crashHistoryRun(c *vlib.Ctx, scratch string, h CrashHistory) (stop bool) {
 		if clause != "" {
 			c.Violation(crashSig(clause, stage, im, h, cx),
 				fmt.Sprintf("crash history %s, image %s; acknowledged ops %v, in flight: %s — stage %s: %s", h, cutDesc, h.Ops[:cx.NAcked], orNone(cx.Infl), stage, detail),
-				CrashCase{Part: "crash", History: h, Desc: im.Desc, Digest: prefixDigest(l, im.Desc), Cut: cutDesc})
+				CrashCase{Part: "crash", History: h, Desc: im.Desc, Content: contentKey(im), Ctx: ctxKey(cx), Cut: cutDesc})
 		} else if !sampled && c.WantSample() && im.Desc.Kind == crashfs.KindT && (ic == "write-new-field" || ic == opDrop) {
 			sampled = true
 			c.Sample(map[string]any{"part": "crash", "history": h.String(), "image": im.Desc.String(), "at": im.NextOp + " " + im.NextPath, "acknowledged": h.Ops[:cx.NAcked],
@@ -2028,24 +2064,16 @@ func replayCrash(raw json.RawMessage) (bool, string) {
 	scratch := vlib.Scratch("c10cr-")
 	defer os.RemoveAll(scratch)
 	h := cs.History
-	l, msg := findCrashLog(scratch, h, cs.Desc, cs.Digest)
-	if l == nil {
+	im, cx, msg := findCrashImage(scratch, &cs)
+	if im == nil {
 		return false, msg
-	}
-	im, err := l.Build(cs.Desc, crashImgOpts)
-	if err != nil {
-		return false, "cannot rebuild the image: " + err.Error()
-	}
-	cx, err := contextOf(h, im)
-	if err != nil {
-		return false, err.Error()
 	}
 	dir, _ := os.MkdirTemp(scratch, "img-")
 	res, out, err := runCrashRecovery(dir, h, []crashItem{{im, cx}}, isolatedTimeout)
 	if err != nil {
 		return false, "recovery could not be run: " + err.Error()
 	}
-	obs := fmt.Sprintf("crash history %s image %v (at the cut: %s %s; acknowledged %v, in flight: %s): ", h, cs.Desc, im.NextOp, im.NextPath, h.Ops[:cx.NAcked], orNone(cx.Infl))
+	obs := fmt.Sprintf("crash history %s image %s (content %s; acknowledged %v, in flight: %s): ", h, normPath(cs.Cut), cs.Content, h.Ops[:cx.NAcked], orNone(cx.Infl))
 	o := res["0"]
 	if o == nil {
 		o = &CrashObs{ID: "0", Died: deathClass(out)}
